@@ -128,6 +128,7 @@ class Checker:
         b = self.run(problem, kind)
         if "timeout" in (a["status"], b["status"]):
             ctx.skip_unspecified("resolution did not finish within the time limit")
+            ctx.note("timeout (%s): %s" % (kind, json.dumps(problem)))
             return a
         ctx.evaluated()
         ctx.count("determinism_pairs")
@@ -149,8 +150,9 @@ class Checker:
             ctx.count("problems_skipped_after_timeout")
             return
         full_min = self.determinism(problem, "min_install")
-        self.determinism(problem, "empty_tree")
-        self.sampled.append(problem)
+        full_empty = self.determinism(problem, "empty_tree")
+        if "timeout" not in (full_min["status"], full_empty["status"]):
+            self.sampled.append(problem)
         matching_src = [s for s in problem["source"] if ref.atom_matches(target, s)]
         matching_vdb = [s for s in problem["installed"] if ref.atom_matches(target, s)]
         distinct_versions = []
